@@ -65,6 +65,10 @@ def _path(clf, X, y=None, alpha_multiplier=1.05, min_features=2, keep_threshold=
     elif min_features >= X.shape[1]:
         warnings.warn(f"The min_features param is greater or equal to the number of features. This implies that "
                       f"no path will be performed. The method is equivalent to `fit`.")
+    if max_patience <= 0:
+        warnings.warn(f"The max_patience param is lower or equal to 0, which implies that no training would be "
+                      f"performed during the path. Setting it to default: 10")
+        max_patience = 10
 
     # Start by fitting the model using all features and without regularisation
     alpha = clf.alpha
